@@ -232,3 +232,50 @@ theorem C05_map_init_old_order_refuted :
     intro h
     have := congrFun (congrFun (Option.some.inj h) 0) 0
     norm_num at this⟩
+
+/-- renumbering of the components, for the mixture, the statistics and the per-component floors -/
+def BobEM.Params.relabelM {C D : ℕ} (p : Params C D ℝ) (σ : Equiv.Perm (Fin C)) : Params C D ℝ :=
+  { weights := fun c => p.weights (σ c), means := fun c => p.means (σ c), variances := fun c => p.variances (σ c) }
+def BobEM.Stats.relabelM {C D : ℕ} (st : Stats C D ℝ) (σ : Equiv.Perm (Fin C)) : Stats C D ℝ :=
+  { n := fun c => st.n (σ c), sumPx := fun c => st.sumPx (σ c), sumPxx := fun c => st.sumPxx (σ c), ll := st.ll, t := st.t }
+def BobEM.MapCfg.relabelM {C D : ℕ} (cfg : MapCfg C D ℝ) (σ : Equiv.Perm (Fin C)) : MapCfg C D ℝ :=
+  { cfg with varFloor := fun c => cfg.varFloor (σ c) }
+
+/-- MAP adaptation does not depend on how the components are numbered: the M-step on relabelled prior,
+model, statistics and floors is the relabelled M-step — every switch combination, Reynolds or fixed
+alpha, with or without evidence, Spec and Code form of the variance alike (the weight normaliser is a
+sum over all components, hence invariant) -/
+theorem C05_mstep_relabel_equivariant (sq : ℝ → ℝ) (cfg : MapCfg C D ℝ) (ubm p : Params C D ℝ) (st : Stats C D ℝ)
+    (t : ℝ) (σ : Equiv.Perm (Fin C)) :
+    mapMStepG sq (cfg.relabelM σ) (ubm.relabelM σ) (p.relabelM σ) (st.relabelM σ) t
+      = (mapMStepG sq cfg ubm p st t).relabelM σ := by
+  have hsum : sumFin C (mapRawWeight (cfg.relabelM σ) (ubm.relabelM σ) (st.relabelM σ) t)
+      = sumFin C (mapRawWeight cfg ubm st t) := by
+    rw [sumFin_eq, sumFin_eq]
+    exact Equiv.sum_comp σ (mapRawWeight cfg ubm st t)
+  have hw : mapWeights (cfg.relabelM σ) (ubm.relabelM σ) (p.relabelM σ) (st.relabelM σ) t
+      = fun c => mapWeights cfg ubm p st t (σ c) := by
+    unfold mapWeights
+    rw [hsum]
+    by_cases h : cfg.updWeights = true
+    · simp only [MapCfg.relabelM, h, if_true]; rfl
+    · simp only [MapCfg.relabelM, h]; rfl
+  have hm : mapMeans (cfg.relabelM σ) (ubm.relabelM σ) (p.relabelM σ) (st.relabelM σ)
+      = fun c => mapMeans cfg ubm p st (σ c) := by
+    unfold mapMeans
+    by_cases h : cfg.updMeans = true
+    · simp only [MapCfg.relabelM, h, if_true]; rfl
+    · simp only [MapCfg.relabelM, h]; rfl
+  have hv : ∀ c d, mapRawVarG sq (cfg.relabelM σ) (ubm.relabelM σ) (p.relabelM σ) (st.relabelM σ) c d
+      = mapRawVarG sq cfg ubm p st (σ c) d := by
+    intro c d
+    unfold mapRawVarG
+    rw [hm]; rfl
+  unfold mapMStepG
+  rw [hw, hm]
+  have hfl : (cfg.relabelM σ).varFloor = fun c => cfg.varFloor (σ c) := rfl
+  have hu : (cfg.relabelM σ).updVars = cfg.updVars := rfl
+  simp only [hv, hfl, hu]
+  by_cases h : cfg.updVars = true
+  · simp only [h, if_true]; rfl
+  · simp only [h]; rfl
